@@ -37,7 +37,7 @@ theorem parseAxis_dump {a : Axis} (h : a.ValidBy ordCode) : parseAxis (dumpAxis 
   obtain ⟨name, type, unit, min, max, scale, su, offset⟩ := a
   have hg : guardE (axisTypeOk type) = .ok () := by simp only at ht; simp [guardE, ht]
   simp only [dumpAxis, parseAxis, getReqStr, lookup]
-  simp only [String.reduceEq, ↓reduceIte, getStr, getOptStr_dump, getOptNum_dump, hg, bind, Except.bind, hv]
+  simp only [String.reduceBEq, Bool.false_eq_true, ↓reduceIte, getStr, getOptStr_dump, getOptNum_dump, hg, bind, Except.bind, hv]
 
 theorem convertDtype_fix {env : Env} (hnp : NpFix env) {d : String} (h : d ∈ Gen.ValidValues.dtypes) :
     convertDtype env (.str d) = .ok d := by
@@ -53,7 +53,7 @@ theorem parseProp_dump {env : Env} (hnp : NpFix env) {p : PropMeta} (h : p.Valid
   have hd := convertDtype_fix hnp h2
   have hg : guardE (decide (ident.length ≥ 1)) = .ok () := by simp [guardE, h1]
   simp only [dumpProp, parseProp, getReqStr, getReqDtype, getBoolOr, lookup]
-  simp only [String.reduceEq, ↓reduceIte, getStr, getBool, getOptStr_dump, hd, hg, bind, Except.bind,
+  simp only [String.reduceBEq, Bool.false_eq_true, ↓reduceIte, getStr, getBool, getOptStr_dump, hd, hg, bind, Except.bind,
     pure, Except.pure]
 
 theorem parseRelated_dump {r : RelatedObject} (h : r.Valid) : parseRelated (dumpRelated r) = .ok r := by
@@ -64,11 +64,11 @@ theorem parseRelated_dump {r : RelatedObject} (h : r.Valid) : parseRelated (dump
     | none => simp
     | some l => have := h l rfl; simp only at this; simp [this]
   simp only [dumpRelated, parseRelated, getReqStr, lookup]
-  simp only [String.reduceEq, ↓reduceIte, getStr, getOptStr_dump, bind, Except.bind, hv]
+  simp only [String.reduceBEq, Bool.false_eq_true, ↓reduceIte, getStr, getOptStr_dump, bind, Except.bind, hv]
 
 theorem parseHint_dump (h : DisplayHint) : parseHint (dumpHint h) = .ok h := by
   obtain ⟨a, b, c, d⟩ := h
-  simp only [dumpHint, parseHint, getReqStr, lookup, String.reduceEq, ↓reduceIte, getStr, getOptStr_dump, bind,
+  simp only [dumpHint, parseHint, getReqStr, lookup, String.reduceBEq, Bool.false_eq_true, ↓reduceIte, getStr, getOptStr_dump, bind,
     Except.bind, pure, Except.pure]
 
 theorem parseHintField_dump (h : DisplayHint) : parseHintField (dumpHint h) = .ok (some h) := by
@@ -97,26 +97,19 @@ theorem parseTrackProps_dump {t : List (String × String)} (h : ∀ kv ∈ t, kv
 theorem setField_dump {env : Env} (hnp : NpFix env) {m : Meta} (hm : ValidCode env m) (acc : Meta) :
     setField env acc "geff_version" (.str m.geff_version) = .ok { acc with geff_version := m.geff_version } ∧
     setField env acc "directed" (.bool m.directed) = .ok { acc with directed := m.directed } ∧
-    setField env acc "axes" (match m.axes with
-                              | none => .null
-                              | some l => .arr (l.map dumpAxis)) = .ok { acc with axes := m.axes } ∧
+    setField env acc "axes" (dumpAxesOpt m.axes) = .ok { acc with axes := m.axes } ∧
     setField env acc "node_props_metadata" (dumpPropsDict m.node_props_metadata) =
       .ok { acc with node_props_metadata := m.node_props_metadata } ∧
     setField env acc "edge_props_metadata" (dumpPropsDict m.edge_props_metadata) =
       .ok { acc with edge_props_metadata := m.edge_props_metadata } ∧
     setField env acc "sphere" (optStrJ m.sphere) = .ok { acc with sphere := m.sphere } ∧
     setField env acc "ellipsoid" (optStrJ m.ellipsoid) = .ok { acc with ellipsoid := m.ellipsoid } ∧
-    setField env acc "track_node_props" (match m.track_node_props with
-                                          | none => .null
-                                          | some l => .obj (l.map (fun kv => (kv.1, .str kv.2)))) =
+    setField env acc "track_node_props" (dumpTrackOpt m.track_node_props) =
       .ok { acc with track_node_props := m.track_node_props } ∧
-    setField env acc "related_objects" (match m.related_objects with
-                                         | none => .null
-                                         | some l => .arr (l.map dumpRelated)) =
+    setField env acc "related_objects" (dumpRelatedOpt m.related_objects) =
       .ok { acc with related_objects := m.related_objects } ∧
-    setField env acc "display_hints" (match m.display_hints with
-                                       | none => .null
-                                       | some h => dumpHint h) = .ok { acc with display_hints := m.display_hints } ∧
+    setField env acc "display_hints" (dumpHintOpt m.display_hints) =
+      .ok { acc with display_hints := m.display_hints } ∧
     setField env acc "extra" (.obj m.extra) = .ok { acc with extra := m.extra } := by
   obtain ⟨hv, hax, hn, he, ht, hr⟩ := hm
   have f0 : Field.ofName? "geff_version" = some .geff_version := by decide
@@ -134,27 +127,27 @@ theorem setField_dump {env : Env} (hnp : NpFix env) {m : Meta} (hm : ValidCode e
   · simp [setField, f0, setFieldT, parseVersion, getStr, guardE, hv, bind, Except.bind, pure, Except.pure, Except.map]
   · simp [setField, f1, setFieldT, getBool, Except.map]
   · cases hax' : m.axes with
-    | none => simp [setField, f2, setFieldT, parseAxesField, Except.map]
+    | none => simp [setField, f2, setFieldT, parseAxesField, dumpAxesOpt, Except.map]
     | some l =>
       have : mapE parseAxis (l.map dumpAxis) = .ok l :=
         mapE_map_id l (fun a ha => parseAxis_dump ((hax l hax').2.1 a ha))
-      simp [setField, f2, setFieldT, parseAxesField, this, Except.map]
+      simp [setField, f2, setFieldT, parseAxesField, dumpAxesOpt, this, Except.map]
   · simp [setField, f3, setFieldT, parsePropsDict_dump hnp hn, Except.map]
   · simp [setField, f4, setFieldT, parsePropsDict_dump hnp he, Except.map]
   · simp [setField, f5, setFieldT, getOptStr_dump, Except.map]
   · simp [setField, f6, setFieldT, getOptStr_dump, Except.map]
   · cases ht' : m.track_node_props with
-    | none => simp [setField, f7, setFieldT, parseTrackProps, Except.map]
-    | some l => simp [setField, f7, setFieldT, parseTrackProps_dump (ht l ht'), Except.map]
+    | none => simp [setField, f7, setFieldT, parseTrackProps, dumpTrackOpt, Except.map]
+    | some l => simp [setField, f7, setFieldT, dumpTrackOpt, parseTrackProps_dump (ht l ht'), Except.map]
   · cases hr' : m.related_objects with
-    | none => simp [setField, f8, setFieldT, parseRelatedField, Except.map]
+    | none => simp [setField, f8, setFieldT, parseRelatedField, dumpRelatedOpt, Except.map]
     | some l =>
       have : mapE parseRelated (l.map dumpRelated) = .ok l :=
         mapE_map_id l (fun r hr'' => parseRelated_dump (hr l hr' r hr''))
-      simp [setField, f8, setFieldT, parseRelatedField, this, Except.map]
+      simp [setField, f8, setFieldT, parseRelatedField, dumpRelatedOpt, this, Except.map]
   · cases hd' : m.display_hints with
-    | none => simp [setField, f9, setFieldT, parseHintField, Except.map]
-    | some h => simp [setField, f9, setFieldT, parseHintField_dump, Except.map]
+    | none => simp [setField, f9, setFieldT, parseHintField, dumpHintOpt, Except.map]
+    | some h => simp [setField, f9, setFieldT, dumpHintOpt, parseHintField_dump, Except.map]
   · simp [setField, f10, setFieldT, parseExtraField, Except.map]
 
 theorem vfa_step {env : Env} {kvs : List (String × J)} {f : String} {fs : List String} {acc acc' : Meta} {v : J}
@@ -171,35 +164,27 @@ theorem validateFieldsAux_dump {env : Env} (hnp : NpFix env) {m : Meta} (hm : Va
   rw [fieldNames_eq]
   have s := setField_dump hnp hm
   have l0 : lookup (dumpFields m) "geff_version" = some (.str m.geff_version) := by
-    simp only [dumpFields, lookup, ↓reduceIte] <;> rfl
+    simp only [dumpFields, lookup, String.reduceBEq, ↓reduceIte]
   have l1 : lookup (dumpFields m) "directed" = some (.bool m.directed) := by
-    simp only [dumpFields, lookup, String.reduceEq, ↓reduceIte] <;> rfl
-  have l2 : lookup (dumpFields m) "axes" = some (match m.axes with
-      | none => .null
-      | some l => .arr (l.map dumpAxis)) := by
-    simp only [dumpFields, lookup, String.reduceEq, ↓reduceIte] <;> rfl
+    simp only [dumpFields, lookup, String.reduceBEq, Bool.false_eq_true, ↓reduceIte]
+  have l2 : lookup (dumpFields m) "axes" = some (dumpAxesOpt m.axes) := by
+    simp only [dumpFields, lookup, String.reduceBEq, Bool.false_eq_true, ↓reduceIte]
   have l3 : lookup (dumpFields m) "node_props_metadata" = some (dumpPropsDict m.node_props_metadata) := by
-    simp only [dumpFields, lookup, String.reduceEq, ↓reduceIte] <;> rfl
+    simp only [dumpFields, lookup, String.reduceBEq, Bool.false_eq_true, ↓reduceIte]
   have l4 : lookup (dumpFields m) "edge_props_metadata" = some (dumpPropsDict m.edge_props_metadata) := by
-    simp only [dumpFields, lookup, String.reduceEq, ↓reduceIte] <;> rfl
+    simp only [dumpFields, lookup, String.reduceBEq, Bool.false_eq_true, ↓reduceIte]
   have l5 : lookup (dumpFields m) "sphere" = some (optStrJ m.sphere) := by
-    simp only [dumpFields, lookup, String.reduceEq, ↓reduceIte] <;> rfl
+    simp only [dumpFields, lookup, String.reduceBEq, Bool.false_eq_true, ↓reduceIte]
   have l6 : lookup (dumpFields m) "ellipsoid" = some (optStrJ m.ellipsoid) := by
-    simp only [dumpFields, lookup, String.reduceEq, ↓reduceIte] <;> rfl
-  have l7 : lookup (dumpFields m) "track_node_props" = some (match m.track_node_props with
-      | none => .null
-      | some l => .obj (l.map (fun kv => (kv.1, .str kv.2)))) := by
-    simp only [dumpFields, lookup, String.reduceEq, ↓reduceIte] <;> rfl
-  have l8 : lookup (dumpFields m) "related_objects" = some (match m.related_objects with
-      | none => .null
-      | some l => .arr (l.map dumpRelated)) := by
-    simp only [dumpFields, lookup, String.reduceEq, ↓reduceIte] <;> rfl
-  have l9 : lookup (dumpFields m) "display_hints" = some (match m.display_hints with
-      | none => .null
-      | some h => dumpHint h) := by
-    simp only [dumpFields, lookup, String.reduceEq, ↓reduceIte] <;> rfl
+    simp only [dumpFields, lookup, String.reduceBEq, Bool.false_eq_true, ↓reduceIte]
+  have l7 : lookup (dumpFields m) "track_node_props" = some (dumpTrackOpt m.track_node_props) := by
+    simp only [dumpFields, lookup, String.reduceBEq, Bool.false_eq_true, ↓reduceIte]
+  have l8 : lookup (dumpFields m) "related_objects" = some (dumpRelatedOpt m.related_objects) := by
+    simp only [dumpFields, lookup, String.reduceBEq, Bool.false_eq_true, ↓reduceIte]
+  have l9 : lookup (dumpFields m) "display_hints" = some (dumpHintOpt m.display_hints) := by
+    simp only [dumpFields, lookup, String.reduceBEq, Bool.false_eq_true, ↓reduceIte]
   have l10 : lookup (dumpFields m) "extra" = some (.obj m.extra) := by
-    simp only [dumpFields, lookup, String.reduceEq, ↓reduceIte] <;> rfl
+    simp only [dumpFields, lookup, String.reduceBEq, Bool.false_eq_true, ↓reduceIte]
   rw [vfa_step l0 (s _).1, vfa_step l1 (s _).2.1, vfa_step l2 (s _).2.2.1, vfa_step l3 (s _).2.2.2.1,
     vfa_step l4 (s _).2.2.2.2.1, vfa_step l5 (s _).2.2.2.2.2.1, vfa_step l6 (s _).2.2.2.2.2.2.1,
     vfa_step l7 (s _).2.2.2.2.2.2.2.1, vfa_step l8 (s _).2.2.2.2.2.2.2.2.1,
@@ -208,7 +193,7 @@ theorem validateFieldsAux_dump {env : Env} (hnp : NpFix env) {m : Meta} (hm : Va
 
 theorem providedFields_dump (m : Meta) : providedFields (dumpFields m) = fieldNames := by
   rw [providedFields, fieldNames_eq]
-  simp only [dumpFields, lookup, List.filter, String.reduceEq, ↓reduceIte, Option.isSome]
+  simp only [dumpFields, lookup, List.filter, String.reduceBEq, Bool.false_eq_true, ↓reduceIte, Option.isSome]
 
 /-- **parse ∘ dump = id** on valid metadata (all fields come back, all fields are "set") -/
 theorem parse_dump {env : Env} (hnp : NpFix env) {m : Meta} (hm : ValidCode env m) :
